@@ -39,3 +39,36 @@ pub fn governor_burst() {
         eprintln!("burst {b}: fresh key admits {fresh} at once; after a long idle period {after_idle} at once");
     }
 }
+
+
+/// What does a panicking application handler do to the serving network and to its peers?
+pub fn handler_panic() {
+    use crate::simrun::sim_exec;
+    use crate::world::*;
+    use futures::FutureExt;
+    let o = sim_exec(1, &[], 200, move |sim| {
+        async move {
+            let a = sim.start(&NodeSpec::new(1)).unwrap();
+            let b = sim.start(&NodeSpec::new(2)).unwrap();
+            let c = sim.start(&NodeSpec::new(3)).unwrap();
+            a.connect(b.local_addr()).await.unwrap();
+            c.connect(b.local_addr()).await.unwrap();
+            let r = a.rpc(b.peer_id(), Sim::request("p").with_header("panic", "1")).await;
+            let mut log = vec![format!("rpc result: {:?}", r.map(|x| x.status()).map_err(|e| e.to_string()))];
+            tokio::time::sleep(std::time::Duration::from_secs(40)).await;
+            log.push(format!("after 40 s: b.is_closed={} b.peers={} a.peers={} c.peers={}", b.is_closed(), b.peers().len(), a.peers().len(), c.peers().len()));
+            let r2 = c.rpc(b.peer_id(), Sim::request("q")).await;
+            log.push(format!("c->b rpc: {:?}", r2.map(|x| x.status()).map_err(|e| e.to_string())));
+            let r3 = b.rpc(a.peer_id(), Sim::request("q")).await;
+            log.push(format!("b->a rpc: {:?}", r3.map(|x| x.status()).map_err(|e| e.to_string())));
+            log
+        }
+        .boxed()
+    });
+    println!("hung={} panics={:?}", o.hung, o.panics.iter().map(|p| (&p.message, &p.location)).collect::<Vec<_>>());
+    if let Some(r) = o.run {
+        for l in r.obs {
+            println!("{l}");
+        }
+    }
+}
